@@ -35,7 +35,7 @@ REQUIRED = [
     ("liquid/builtin/filters/string.py", "escape_once"),
     ("liquid/builtin/filters/array.py", "join"),
 ]
-MIN_COUNTERS = {"filter_results_scanned": 2000, "outputs_scanned": 1000, "twin_preludes_rendered": 100}
+MIN_COUNTERS = {"filter_results_scanned": 2000, "outputs_scanned": 1000, "twin_preludes_rendered": 100, "implicit_environment_cases": 50}
 
 AMP_OK = re.compile(r"&(amp|lt|gt|quot|apos|#\d+|#x[0-9a-f]+);", re.IGNORECASE)
 # filters that cut, remove or substitute parts of their input text
@@ -162,6 +162,19 @@ def judge(ctx: core.Ctx, case: dict[str, Any]) -> None:
         return
     ctx.count("outputs_scanned")
     bad = scan(o.value)
+    if case.get("implicit") and o.ok and not bad:
+        # the package-level API: liquid.Template(source, autoescape=True) uses a memoised implicit environment; another template made
+        # with autoescape off in between must not change how this one escapes (the explicit environment's output is the reference)
+        import liquid
+
+        t = drv.call(liquid.Template, src, autoescape=True, extra=True)
+        drv.call(liquid.Template, "{{ x }}", autoescape=False, extra=True)
+        ctx.count("implicit_environment_cases")
+        oi = drv.render(t.value, data) if t.ok else t
+        if oi.ok and oi.value != o.value and scan(oi.value):
+            ctx.evaluations += 1
+            ctx.violation("raw-special:implicit-environment-shared-with-autoescape-off", f"liquid.Template({src!r:.200}, autoescape=True), rendered after a template with autoescape=False was made, gives {oi.value!r:.200}; an explicit Environment(autoescape=True) gives {o.value!r:.200}")
+            return
     if bad:
         fb = REC["first_bad"]
         from harness import shrink
@@ -357,4 +370,7 @@ def cases(ctx: core.Ctx):
         if i % 5 == 0:
             yield {"source": gen_scalar_source(rng), "data": V.enc(gen_data(rng, hostile=False)), "differential": True}
         else:
-            yield {"source": gen_source(rng), "data": V.enc(gen_data(rng, hostile=True)), "async": rng.random() < 0.1}
+            c = {"source": gen_source(rng), "data": V.enc(gen_data(rng, hostile=True)), "async": rng.random() < 0.1}
+            if i % 23 == 1 and "include" not in c["source"] and "render" not in c["source"]:
+                c["implicit"] = True
+            yield c
